@@ -333,8 +333,8 @@ def execActs (fuel : Nat) (role : Nat) (u : UnitId) (i : Nat) : List Act → M (
           sop c .threadRun
           let r ← execScript fuel c (.th u i) inner
           if r.isSome then
-            -- `Thread.run`: `except Exception: log_error(...)` through the public API
-            let _ ← apiAct c (.log .error "")
+            -- `Thread.run`: `except Exception: self._session.log_error(...)` (the session method: no interrupt check)
+            sop c (.log .error "")
           sop c .threadEnd
           pure none)
       match r with
@@ -477,16 +477,16 @@ def runSetupFn (P : Proj) (svs : List SuiteView) (w : Nat) (suite : Path) : Setu
   | .setupTest sc t => runUnit (.hook suite "setup_test" (some t)) sc
 
 /-- `RunContext.run_setup_funcs(funcs, location)` -/
-def runSetupFuncs (P : Proj) (svs : List SuiteView) (w : Nat) (suite : Path) (loc : Loc) :
+def runSetupFuncs (P : Proj) (svs : List SuiteView) (w : Nat) (suite : Path) (loc : Loc) (hs : Option Path) :
     List (Option SetupFn × Td) → List Td → M (List Td)
   | [], acc => return acc
-  | (none, td) :: rest, acc => runSetupFuncs P svs w suite loc rest (acc ++ [td])
+  | (none, td) :: rest, acc => runSetupFuncs P svs w suite loc hs rest (acc ++ [td])
   | (some fn, td) :: rest, acc => do
     match ← runSetupFn P svs w suite fn with
-    | some e => do handleException e none false; return acc
+    | some e => do handleException e hs hs.isSome; return acc
     | none =>
       if !(← isOk loc) then return acc
-      else runSetupFuncs P svs w suite loc rest (acc ++ [td])
+      else runSetupFuncs P svs w suite loc hs rest (acc ++ [td])
 
 def runTd (P : Proj) (svs : List SuiteView) (loc : Loc) : Td → M (Option ExcKind)
   | .fixture k n => teardownFixture P k n
@@ -503,11 +503,11 @@ def runTd (P : Proj) (svs : List SuiteView) (loc : Loc) : Td → M (Option ExcKi
   | .none_ => pure none
 
 /-- `RunContext.run_teardown_funcs(teardown_funcs)`: reversed, `None`s skipped, exceptions survive -/
-def runTeardownFuncs (P : Proj) (svs : List SuiteView) (loc : Loc) (tds : List Td) : M Unit := do
+def runTeardownFuncs (P : Proj) (svs : List SuiteView) (loc : Loc) (hs : Option Path) (tds : List Td) : M Unit := do
   for td in tds.reverse do
     if td != .none_ then
       match ← runTd P svs loc td with
-      | some e => handleException e none false
+      | some e => handleException e hs hs.isSome
       | none => pure ()
 
 def mdOf (name : String) (rank : Nat) : Meta :=
@@ -539,7 +539,7 @@ def phaseProgram (P : Proj) (svs : List SuiteView) (w : Nat) (suite : Path) (loc
   if pairs.any (fun p => p.1.isSome) then
     sop 0 startOp
     sop 0 (.setStep stepName)
-    let kept ← runSetupFuncs P svs w suite loc pairs []
+    let kept ← runSetupFuncs P svs w suite loc none pairs []
     sop 0 endOp
     return (kept, !(← isOk loc))
   else
@@ -550,7 +550,7 @@ def teardownProgram (P : Proj) (svs : List SuiteView) (loc : Loc)
   if kept.any (· != .none_) then
     sop 0 startOp
     sop 0 (.setStep stepName)
-    runTeardownFuncs P svs loc kept
+    runTeardownFuncs P svs loc none kept
     sop 0 endOp
 
 /-- the whole behaviour of one task.  `run = true`: `task.run(context)`, `false`: `task.skip(context, reason)`;
@@ -617,22 +617,22 @@ def taskProgram (P : Proj) (svs : List SuiteView) (w : Nat) (t : TaskId) (run : 
           let fxPairs := (testFixtures P ts).map (fun n => (some (SetupFn.fixture (.test t.path) n), Td.fixture (.test t.path) n))
           let pairs := hookPair :: fxPairs
           sop 0 (.setStep "Setup test")
-          let kept ← (if pairs.any (fun p => p.1.isSome) then runSetupFuncs P svs w suite loc pairs []
+          let kept ← (if pairs.any (fun p => p.1.isSome) then runSetupFuncs P svs w suite loc (some suite) pairs []
                       else pure (pairs.filterMap (fun p => if p.2 == .none_ then none else some p.2)))
-          let mut crashed := false
           if (← isOk loc) then
-            -- `_prepare_test_args`: outside any try (a raising per-thread fixture crashes the task: D3)
+            -- `_prepare_test_args` (a per-thread fixture is evaluated at its first use by the thread: here) and
+            -- the body are guarded together; the body runs only if the test is still successful
             match ← lookupAll P svs w (.test t.path) suite ts.fixtures with
-            | some _ => crashed := true
+            | some e => handleException e (some suite) true
             | none =>
-              sop 0 (.setStep ("test " ++ ts.name))   -- set_step(test.description); the harness names it "test <name>"
-              match ← runUnit (.body t.path) ts.script with
-              | some e => handleException e (some suite) true
-              | none => pure ()
-          if crashed then return (.exception, [])
+              if (← isOk loc) then
+                sop 0 (.setStep ("test " ++ ts.name))   -- set_step(test.description); the harness names it "test <name>"
+                match ← runUnit (.body t.path) ts.script with
+                | some e => handleException e (some suite) true
+                | none => pure ()
           if kept.any (· != .none_) then
             sop 0 (.setStep "Teardown test")
-            runTeardownFuncs P svs loc kept
+            runTeardownFuncs P svs loc (some suite) kept
           sop 0 (.endTest t.path)
           return (if (← isOk loc) then .success else .failure, [])
 
